@@ -26,6 +26,8 @@ use std::rc::Rc;
 
 mod action;
 mod fake_term;
+#[cfg(feature = "verif_hooks")]
+pub mod verif_hooks;
 
 use self::fake_term::FakeTerminal;
 
@@ -159,6 +161,8 @@ fn process_file_into(
             "processing file `{}`",
             lalrpop_file.to_string_lossy()
         );
+        #[cfg(feature = "verif_hooks")]
+        verif_hooks::crash_point("after_needs_rebuild", lalrpop_file);
 
         // Load the LALRPOP source text for this file:
         let file_text = Rc::new(FileText::from_path(lalrpop_file.to_path_buf())?);
@@ -167,6 +171,8 @@ fn process_file_into(
             fs::create_dir_all(parent)?;
         }
         remove_old_file(rs_file)?;
+        #[cfg(feature = "verif_hooks")]
+        verif_hooks::crash_point("after_remove", lalrpop_file);
 
         // Store the session and file-text in TLS -- this is not
         // intended to be used in this high-level code, but it gives
@@ -182,10 +188,20 @@ fn process_file_into(
         {
             let grammar = parse_and_normalize_grammar(&session, &file_text)?;
             let buffer = emit_recursive_ascent(&session, &grammar, report_file)?;
+            #[cfg(feature = "verif_hooks")]
+            verif_hooks::crash_point("after_generate", lalrpop_file);
             let mut output_file = fs::File::create(rs_file)?;
+            #[cfg(feature = "verif_hooks")]
+            verif_hooks::crash_point("after_create", lalrpop_file);
             writeln!(output_file, "{LALRPOP_VERSION_HEADER}")?;
+            #[cfg(feature = "verif_hooks")]
+            verif_hooks::crash_point("after_version_line", lalrpop_file);
             writeln!(output_file, "{}", hash_file(lalrpop_file)?)?;
+            #[cfg(feature = "verif_hooks")]
+            verif_hooks::crash_point("after_hash_line", lalrpop_file);
             output_file.write_all(&buffer)?;
+            #[cfg(feature = "verif_hooks")]
+            verif_hooks::crash_point("after_body", lalrpop_file);
         }
     }
     Ok(())
